@@ -1,11 +1,14 @@
-(* Props/C18.v — property C18 (partial): the Junos streaming-filter (SAX) handler.
-   Model: Model/SaxFilter.v (ncclient/transport/third_party/junos/parser.py, class SAXParser, as repaired by the
-   fix: commits of this property).  Spec: Spec/Projection.v.
-   Partial: the theorems are about the handler driven by SAX events.  expat (bytes -> events), lxml, the byte-level
-   split at the end-of-message delimiter (JunosXMLParser.parse) and the hand-over to DefaultXMLParser are tied to the
-   model and to the property by the correspondence and the whole-path oracle only (tools/props/c18.py). *)
+(* Props/C18.v — property C18 (partial): the Junos streaming-filter (SAX) mode.
+   Models: Model/SaxFilter.v (ncclient/transport/third_party/junos/parser.py, class SAXParser, as repaired by the
+   fix: commits of this property; spec Spec/Projection.v, Spec/ProjectionW.v) and Model/JunosParse.v (the byte-level
+   driver JunosXMLParser.parse with the hand-over to DefaultXMLParser and back; expat + handler abstracted as a machine
+   stepped octet by octet, instance Model/JunosSax.v).
+   Partial: expat (bytes -> events) and lxml are oracles; the projection theorems cover classes of replies; the recovery
+   heuristics of _delimiter_check (input expat rejects) are outside the driver model (explicit Stuck state). *)
 From Coq Require Import String.
+From NC Require Import Model.JunosParse Model.JunosSax Proofs.JunosParseProofs Proofs.JunosSaxProofs.
 From NC Require Import Model.Base Model.Lit Model.SaxFilter Spec.Projection Proofs.SaxProofs.
+From NC Require Import Spec.ProjectionW Proofs.SaxWrapperProofs.
 
 (* Whatever the environment and the handler state: two event streams that are re-segmentations of each other
    (same canonical form: adjacent character events merged, empty ones dropped) leave the same bytes in the buffer
@@ -29,7 +32,7 @@ Print Assumptions C18_chars_split_at.
    of [project f doc] up to blank character events.
    _partial: outside the class the statement is false of the code (open findings sax_element_name_clash,
    sax_mixed_content_text_dropped, sax_prefixed_element_named_by_filter; see C18_name_clash_outside_class below);
-   the one-level wrapper (first child is not the filter root) is covered by the correspondence only. *)
+   the one-level wrapper (first child is not the filter root) is C18_projection_wrapper below. *)
 Theorem C18_projection_partial : forall e f doc, wf_reply e f doc ->
   exists o s', exec e init (ev doc) = (o, Fin s') /\
                drop_blank (oes o) = drop_blank (ev (project f doc)).
@@ -130,3 +133,219 @@ Example C18_name_clash_outside_class :
   exists o s', exec ex_env init (ev doc) = (o, Fin s') /\
                drop_blank (oes o) <> drop_blank (ev (project ex_f doc)).
 Proof. eexists. eexists. split; [vm_compute; reflexivity | vm_compute; discriminate]. Qed.
+
+(* ---------------- the one-level wrapper ---------------- *)
+(* For replies in the class wf_reply_w (Spec/ProjectionW.v: reply tag rpc-reply / nc:rpc-reply whose request carries
+   filter f; before the first child element of the reply only blank text; that first child element w, the wrapper, is
+   unprefixed, is not named like the filter root and is not a reply tag; the children of w, and likewise the siblings
+   after w, are blank text, elements named like the filter root (unprefixed) whose content is in the class WFks of
+   C18_projection_partial for the default tags [reply tag; w], and other elements, which are unprefixed, not named like
+   w, the reply or a reply tag and contain no element named like themselves, w, the reply or a reply tag)
+   the handler runs to the end and what it wrote, read as events, is the event stream of [project_w f doc] up to blank
+   character events: the reply with its attributes, the wrapper WITHOUT its attributes, in it the projections along f
+   of its children named like the filter root, after it the projections along f of the siblings named like the
+   filter root; everything else dropped. *)
+Theorem C18_projection_wrapper : forall e f doc, wf_reply_w e f doc ->
+  exists o s', exec e init (ev doc) = (o, Fin s') /\
+               drop_blank (oes o) = drop_blank (ev (project_w f doc)).
+Proof. exact c18_projection_wrapper. Qed.
+Print Assumptions C18_projection_wrapper.
+
+(* non-vacuity of the wrapper class *)
+Definition exw_doc : xt :=
+  E (L "rpc-reply") [(L "message-id", L "m1")]
+    [ T (L " ");
+      E (L "data") [(L "x", L "1")]
+        [ T (L " ");
+          E (L "r") [(L "id", L "1")] [E (L "a") [] [T (L "t")]; E (L "b") [] [T (L "dropped")]];
+          E (L "other") [] [E (L "r") [] [E (L "a") [] [T (L "no")]]];
+          T (L " ");
+          E (L "r") [] [E (L "c") [] [E (L "d") [] [T (L "k")]]] ];
+      T (L " ");
+      E (L "z") [] [T (L "zz")];
+      E (L "r") [] [E (L "a") [] [T (L "after")]] ].
+
+Example C18_exw_in_class : wf_reply_w ex_env ex_f exw_doc.
+Proof.
+  constructor.
+  - exists (L "rpc-reply"), [(L "message-id", L "m1")]. eexists. exists (L "m1"). repeat split.
+    apply WFwtop_T; [reflexivity|].
+    apply WFwtop_wrap; [reflexivity | reflexivity | reflexivity | |].
+    + apply WFwk_T; [reflexivity|].
+      apply (WFwk_root _ _ ex_f); [reflexivity | |].
+      { eapply WFks_kept; [repeat split | reflexivity | constructor; repeat constructor; discriminate |].
+        eapply WFks_skipped; [repeat split | reflexivity | repeat constructor | constructor]. }
+      apply WFwk_other; [repeat split | reflexivity | repeat constructor |].
+      apply WFwk_T; [reflexivity|].
+      apply (WFwk_root _ _ ex_f); [reflexivity | | constructor].
+      eapply WFks_kept; [repeat split | reflexivity | | constructor].
+      constructor.
+      eapply WFks_kept; [repeat split | reflexivity | constructor; repeat constructor; discriminate | constructor].
+    + apply WFwk_T; [reflexivity|].
+      apply WFwk_other; [repeat split | reflexivity | repeat constructor |].
+      apply (WFwk_root _ _ ex_f); [reflexivity | | constructor].
+      eapply WFks_kept; [repeat split | reflexivity | constructor; repeat constructor; discriminate | constructor].
+  - reflexivity.
+  - split; reflexivity.
+Qed.
+
+(* ... on it the handler writes exactly this (the wrapper's attribute x, b, other and z are gone) *)
+Example C18_exw_output :
+  runb ex_env init (ev exw_doc) =
+  (L "<rpc-reply message-id=""m1""><data>
+<r id=""1""><a>t</a>
+</r>
+<r><c><d>k</d>
+</c>
+</r>
+</data>
+<r><a>after</a>
+</r>
+</rpc-reply>
+", Fin (mkst [FN (L "data") [ex_f]] (Some (L "r")) 2 false None [L "rpc-reply"; L "data"] false false)).
+Proof. vm_compute. reflexivity. Qed.
+
+Example C18_exw_projection :
+  project_w ex_f exw_doc =
+  E (L "rpc-reply") [(L "message-id", L "m1")]
+    [ T (L " ");
+      E (L "data") []
+        [ T (L " ");
+          E (L "r") [(L "id", L "1")] [E (L "a") [] [T (L "t")]];
+          T (L " ");
+          E (L "r") [] [E (L "c") [] [E (L "d") [] [T (L "k")]]] ];
+      T (L " ");
+      E (L "r") [] [E (L "a") [] [T (L "after")]] ].
+Proof. vm_compute. reflexivity. Qed.
+
+(* ---------------- the class restrictions are needed (exhibited by the model) ---------------- *)
+(* text directly in the wrapper is not written (the wrapper's start does not set _currenttag), although the wrapper
+   is kept: with non-blank text there the statement is false *)
+Example C18_wrapper_text_outside_class :
+  let doc := E (L "rpc-reply") [(L "message-id", L "m1")] [E (L "data") [] [T (L "txt"); E (L "r") [] []]] in
+  exists o s', exec ex_env init (ev doc) = (o, Fin s') /\
+               drop_blank (oes o) <> drop_blank (ev (project_w ex_f doc)).
+Proof. eexists. eexists. split; [vm_compute; reflexivity | vm_compute; discriminate]. Qed.
+
+(* an element named like the wrapper, inside the wrapper or after it (here: a second wrapper), is skipped but its end
+   tag is written (the wrapper's name is a default tag): the output has two </data> for one <data> *)
+Example C18_wrapper_name_clash_outside_class :
+  let doc := E (L "rpc-reply") [(L "message-id", L "m1")]
+               [E (L "data") [] [E (L "r") [] []]; E (L "data") [] [E (L "r") [] []]] in
+  exists s', exec ex_env init (ev doc) =
+             ([OStart (L "rpc-reply") [(L "message-id", L "m1")]; OBare (L "data"); OStart (L "r") []; OEnd (L "r");
+               OEnd (L "data"); OEnd (L "data"); OEnd (L "rpc-reply")], Fin s').
+Proof. eexists. vm_compute. reflexivity. Qed.
+
+(* the same inside a kept element: <r><data/><a>x</a></r> under the wrapper data writes a stray </data> *)
+Example C18_wrapper_name_in_kept_outside_class :
+  let doc := E (L "rpc-reply") [(L "message-id", L "m1")]
+               [E (L "data") [] [E (L "r") [] [E (L "data") [] []; E (L "a") [] [T (L "x")]]]] in
+  exists o s', exec ex_env init (ev doc) = (o, Fin s') /\
+               drop_blank (oes o) <> drop_blank (ev (project_w ex_f doc)).
+Proof. eexists. eexists. split; [vm_compute; reflexivity | vm_compute; discriminate]. Qed.
+
+(* a prefixed wrapper raises ValueError after its start tag has been written *)
+Example C18_wrapper_prefixed_outside_class :
+  exec ex_env init (ev (E (L "rpc-reply") [(L "message-id", L "m1")] [E (L "nc:data") [] [E (L "r") [] []]])) =
+  ([OStart (L "rpc-reply") [(L "message-id", L "m1")]; OBare (L "nc:data")], Raised EValue).
+Proof. vm_compute. reflexivity. Qed.
+
+(* ---------------- the byte-level driver: JunosXMLParser.parse over reads (Model/JunosParse.v) ---------------- *)
+(* Whatever the machine that stands for expat + the SAX handler (stepped octet by octet; its _root, once set, stays
+   set, and a new parser has none), whatever the session side (dispatch), from every state: the stream cut into reads
+   at any positions leaves exactly the state one single read of the whole stream leaves — the same messages dispatched
+   in the same order (SAX output or DOM message), the same octets consumed by each reply's parser, the same mode, the
+   same held-back octets, head and buffer, the same exception or the same excluded state (Stuck: see the model). *)
+Theorem C18_segmentation_independent :
+  forall (W X : Type) (xnew : W -> X) (xstep : W -> X -> N -> xres X) (xrooted : X -> bool)
+         (dispatch : W -> bool -> bytes -> dres W),
+    (forall w x c x' o, xstep w x c = XOk x' o -> xrooted x = true -> xrooted x' = true) ->
+    (forall w, xrooted (xnew w) = false) ->
+    forall s stream cuts,
+      JunosParse.run W X xnew xstep xrooted dispatch s (segments stream cuts) =
+      JunosParse.run W X xnew xstep xrooted dispatch s [stream].
+Proof. exact c18_segmentation_independent. Qed.
+Print Assumptions C18_segmentation_independent.
+
+(* the same for any two ways of reading the same octets (empty reads included) *)
+Theorem C18_reads_independent :
+  forall (W X : Type) (xnew : W -> X) (xstep : W -> X -> N -> xres X) (xrooted : X -> bool)
+         (dispatch : W -> bool -> bytes -> dres W),
+    (forall w x c x' o, xstep w x c = XOk x' o -> xrooted x = true -> xrooted x' = true) ->
+    (forall w, xrooted (xnew w) = false) ->
+    forall s reads1 reads2, reads1 <> [] -> reads2 <> [] -> concat reads1 = concat reads2 ->
+      JunosParse.run W X xnew xstep xrooted dispatch s reads1 = JunosParse.run W X xnew xstep xrooted dispatch s reads2.
+Proof. exact c18_reads_independent. Qed.
+Print Assumptions C18_reads_independent.
+
+(* the instance the correspondence runs (expat as an oracle of events per octet, the modelled handler, the session as
+   an oracle per reply) meets both conditions: no hypothesis left *)
+Theorem C18_segmentation_independent_sax : forall s stream cuts,
+  sx_run s (segments stream cuts) = sx_run s [stream].
+Proof. exact c18_segmentation_independent_sax. Qed.
+Print Assumptions C18_segmentation_independent_sax.
+
+(* No octet of an end-of-message delimiter reaches the XML parser: split the whole stream at its delimiters (leftmost,
+   non-overlapping: [frames], which contain no delimiter: C18_frames_clean); then, however the stream is cut into reads,
+   the k-th XML parser consumed a beginning of the k-th frame without its leading white space ([cov]) — all of it when
+   the reply was parsed to its end, less when the handler signalled the switch to DOM parsing or raised, nothing for a
+   reply the DOM parser took from its first octet. *)
+Theorem C18_delimiter_never_parsed :
+  forall (W X : Type) (xnew : W -> X) (xstep : W -> X -> N -> xres X) (xrooted : X -> bool)
+         (dispatch : W -> bool -> bytes -> dres W),
+    (forall w x c x' o, xstep w x c = XOk x' o -> xrooted x = true -> xrooted x' = true) ->
+    (forall w, xrooted (xnew w) = false) ->
+    forall w reads, reads <> [] ->
+      cov (rev (fed (JunosParse.run W X xnew xstep xrooted dispatch (JunosParse.init W X xnew w) reads)))
+          (frames (concat reads)).
+Proof. exact c18_delimiter_never_parsed. Qed.
+Print Assumptions C18_delimiter_never_parsed.
+
+Theorem C18_frames_clean : forall b, Forall (fun p => find_sub Framing10.delim10 p = None) (frames b).
+Proof. exact frames_clean. Qed.
+Print Assumptions C18_frames_clean.
+
+Theorem C18_delimiter_never_parsed_sax : forall w reads, reads <> [] ->
+  cov (rev (fed (sx_run (sx_init w) reads))) (frames (concat reads)).
+Proof. exact c18_delimiter_never_parsed_sax. Qed.
+Print Assumptions C18_delimiter_never_parsed_sax.
+
+(* non-vacuity: a machine that echoes what it is given, has its root after two octets, signals the switch on "!" and
+   rejects "?".  The stream: a reply, the delimiter, white space, a reply that makes the parser switch, the delimiter, the
+   beginning of a third reply ending in what may begin a delimiter.  Cut inside both delimiters (and elsewhere) and
+   uncut: the same two messages ("ab" written by the handler, "!cd" by the DOM path), the parsers consumed "ab", "!",
+   "ef" (frames "ab", "  !cd", "ef]"), "]" is held back. *)
+Definition toy_step (w : unit) (x : nat) (c : N) : xres nat :=
+  if N.eqb c 33 then XSwitch [] else if N.eqb c 63 then XErr else XOk (S x) [c].
+Definition toy_rooted (x : nat) : bool := (2 <=? x)%nat.
+Definition toy_run := JunosParse.run unit nat (fun _ => O) toy_step toy_rooted (fun w _ _ => DOk w true).
+Definition toy_init := JunosParse.init unit nat (fun _ => O) tt.
+Definition toy_stream : bytes := L "ab]]>]]>  !cd]]>]]>ef]".
+
+Example C18_ex_segments :
+  segments toy_stream [3; 2; 7; 1; 3]%nat = [L "ab]"; L "]>"; L "]]>  !c"; L "d"; L "]]>"; L "]]>ef]"] /\
+  frames toy_stream = [L "ab"; L "  !cd"; L "ef]"].
+Proof. vm_compute. split; reflexivity. Qed.
+
+Example C18_ex_cut_run :
+  toy_run toy_init (segments toy_stream [3; 2; 7; 1; 3]%nat) =
+  mk tt [(true, L "ab"); (false, L "!cd")] [L "ef"; L "!"; L "ab"] (Run (Sax (L "]") [] 2%nat (L "ef"))) /\
+  toy_run toy_init [toy_stream] = toy_run toy_init (segments toy_stream [3; 2; 7; 1; 3]%nat).
+Proof. vm_compute. split; reflexivity. Qed.
+
+(* the conditions of the theorems hold of the toy machine *)
+Example C18_ex_toy_conditions :
+  (forall w x c x' o, toy_step w x c = XOk x' o -> toy_rooted x = true -> toy_rooted x' = true) /\
+  (forall w : unit, toy_rooted O = false).
+Proof.
+  split; [|reflexivity]. intros w x c x' o H R. unfold toy_step in H.
+  destruct (N.eqb c 33); [discriminate|]. destruct (N.eqb c 63); [discriminate|]. injection H as <- _.
+  unfold toy_rooted in *. apply Nat.leb_le in R. apply Nat.leb_le. lia.
+Qed.
+
+(* the excluded regions are visible: "?" (expat rejects) ends in Stuck WExpat, in every segmentation alike *)
+Example C18_ex_stuck :
+  stat (toy_run toy_init [L "a?b]]>]]>"]) = Stuck WExpat /\
+  toy_run toy_init [L "a?"; L "b]]>]]>"] = toy_run toy_init [L "a?b]]>]]>"].
+Proof. vm_compute. split; reflexivity. Qed.
